@@ -73,6 +73,52 @@ fn eval_x(id: &str, m: &Movie, fl: &FileLayout, rep: &mut Report, args: &Args, l
     let bytes = Rc::new(built.ser.bytes);
     let fails = check_plain(&bytes, m, &built.expect, &Opts { compare_sync: true, bytes_from_file: false });
     let mut fails = fails;
+    // Chunks may share bytes: "mutually consistent tables" does not say that the chunks of a
+    // track are disjoint or that one ends before the next begins. One movie in three is checked
+    // once more with the offset of one chunk (not the first of its track) moved to a position
+    // strictly inside the preceding chunk of the same track; only that table entry changes, so
+    // the expected bytes are the file's own bytes at the formula offsets.
+    if fails.is_empty() && hash_str(id) % 3 == 0 {
+        let mut cand: Vec<(usize, usize, u64)> = Vec::new(); // (track, chunk index c+1, new offset)
+        for (ti, t) in m.tracks.iter().enumerate() {
+            let mut k = 0usize;
+            for (ci, c) in t.layout.chunks.iter().enumerate() {
+                let first = k;
+                k += *c as usize;
+                if ci + 1 >= t.layout.chunks.len() || *c == 0 {
+                    continue;
+                }
+                let len: u64 = t.samples[first..k].iter().map(|s| s.size as u64).sum();
+                let (o0, o1) = (built.expect[ti][first].offset, built.expect[ti].get(k).map(|e| e.offset));
+                if let Some(o1) = o1 {
+                    if len >= 2 && o1 > o0 {
+                        cand.push((ti, ci + 1, o0 + 1 + (hash_str(id) >> 8) % (len - 1)));
+                    }
+                }
+            }
+        }
+        if !cand.is_empty() {
+            let (ti, cj, new_off) = cand[(hash_str(id) >> 20) as usize % cand.len()];
+            let tag = format!("/trak[{}]/", ti);
+            let fields: Vec<&crate::refenc::Field> = built.ser.fields.iter().filter(|f| f.path.contains(&tag) && f.path.contains(".chunk_offset#")).collect();
+            if let Some(f) = fields.get(cj) {
+                let mut patched = (*bytes).clone();
+                crate::hostile::put(&mut patched, f.off, f.width, new_off);
+                let mut expect2: Vec<Vec<crate::model::Expect>> = built.expect.iter().map(|v| v.iter().map(|e| crate::model::Expect { ..*e }).collect()).collect();
+                let first: usize = m.tracks[ti].layout.chunks[..cj].iter().map(|c| *c as usize).sum();
+                let mut off = new_off;
+                for e in expect2[ti][first..first + m.tracks[ti].layout.chunks[cj] as usize].iter_mut() {
+                    e.offset = off;
+                    off += e.size as u64;
+                }
+                let f2 = check_plain(&Rc::new(patched), m, &expect2, &Opts { compare_sync: true, bytes_from_file: true });
+                for (rule, d) in f2 {
+                    fails.push((format!("chunks_sharing_bytes:{}", rule), d));
+                }
+                rep.add("movies_with_a_chunk_that_starts_inside_the_preceding_chunk", 1);
+            }
+        }
+    }
     // self-check of the trusted base: the independent decoder must expand the reference
     // encoder's tables to exactly the model's expectations (depends on harness code only)
     match crate::refdec::parse_file(&*bytes).and_then(|top| crate::refdec::dec_movie(&*bytes, &top)) {
